@@ -75,12 +75,20 @@ func (ft *flushTracker) add(e *Env, prop string, c *BackendCall, sent func(Serie
 	}
 }
 
-func (c01) Run(e *Env) {
+func (c01) Run(e *Env) { runConservation(e, "C01") }
+
+// runConservation is the W1 conservation scenario; C06 reuses it with a routing-centred swarm and
+// additional routing oracles.
+func runConservation(e *Env, prop string) {
+	routing := prop == "C06"
+	if routing {
+		e.ProbeDecl("colocated-pair", "separated-pair", "sub-batch-split")
+	}
 	e.ProbeDecl("flush-with-stalled-shard", "delivery-while-stalled", "callback-delayed", "reader-backpressure", "multi-shard-flush", "sampled-counter", "negative-counter")
 	cfg := W1Config{
 		Readers:    e.Range(1, 3),
 		Parsers:    e.Range(1, 4),
-		Workers:    e.Range(1, 5),
+		Workers:    e.Range(1, map[bool]int{false: 5, true: 8}[routing]),
 		Queue:      []int{0, 1, 2, 8}[e.Draw(4)],
 		BatchSize:  e.Range(1, 5),
 		Flush:      []time.Duration{200 * time.Millisecond, 500 * time.Millisecond, time.Second, 2 * time.Second}[e.Draw(4)],
@@ -90,7 +98,7 @@ func (c01) Run(e *Env) {
 	if e.Bool() {
 		cfg.Namespace = "ns"
 	}
-	netFaults := e.Chance(1, 3)
+	netFaults := !routing && e.Chance(1, 3)
 	stalls := e.Chance(1, 2)
 	nClients := e.Range(1, 4)
 	nSeries := e.Range(1, 6)
@@ -151,23 +159,23 @@ func (c01) Run(e *Env) {
 			r := ft.Reported[k]
 			h := hi[k]
 			if h == nil {
-				e.Report("C01/never-sent-series", "%s: %s reported but never delivered", where, k)
+				e.Report(prop+"/never-sent-series", "%s: %s reported but never delivered", where, k)
 				continue
 			}
 			switch r.Kind {
 			case "timer":
 				if !multisetLE(r.Values, h.Values) {
-					e.Report("C01/timer-values-not-received", "%s: %s reported %s, delivered so far %s", where, k, fmtFloats(sortedFloats(r.Values)), fmtFloats(sortedFloats(h.Values)))
+					e.Report(prop+"/timer-values-not-received", "%s: %s reported %s, delivered so far %s", where, k, fmtFloats(sortedFloats(r.Values)), fmtFloats(sortedFloats(h.Values)))
 				}
 			case "set":
 				for m := range r.Members {
 					if _, ok := h.Members[m]; !ok {
-						e.Report("C01/set-member-not-received", "%s: %s member %q never delivered", where, k, m)
+						e.Report(prop+"/set-member-not-received", "%s: %s member %q never delivered", where, k, m)
 					}
 				}
 			case "counter":
 				if bitsOK && isPow2Series(series, k, cfg.Namespace) && r.Counter&^h.Counter != 0 {
-					e.Report("C01/counter-over-reported", "%s: %s reported bits %b, delivered bits %b", where, k, r.Counter, h.Counter)
+					e.Report(prop+"/counter-over-reported", "%s: %s reported bits %b, delivered bits %b", where, k, r.Counter, h.Counter)
 				}
 			}
 		}
@@ -180,17 +188,17 @@ func (c01) Run(e *Env) {
 			switch l.Kind {
 			case "timer":
 				if !multisetLE(l.Values, r.Values) {
-					e.Report("C01/settled-timer-missing", "%s: %s settled values %s not all reported %s", where, k, fmtFloats(sortedFloats(l.Values)), fmtFloats(sortedFloats(r.Values)))
+					e.Report(prop+"/settled-timer-missing", "%s: %s settled values %s not all reported %s", where, k, fmtFloats(sortedFloats(l.Values)), fmtFloats(sortedFloats(r.Values)))
 				}
 			case "set":
 				for m := range l.Members {
 					if _, ok := r.Members[m]; !ok {
-						e.Report("C01/settled-set-member-missing", "%s: %s settled member %q not reported", where, k, m)
+						e.Report(prop+"/settled-set-member-missing", "%s: %s settled member %q not reported", where, k, m)
 					}
 				}
 			case "counter":
 				if bitsOK && isPow2Series(series, k, cfg.Namespace) && l.Counter&^r.Counter != 0 {
-					e.Report("C01/settled-counter-missing", "%s: %s settled bits %b, reported bits %b", where, k, l.Counter, r.Counter)
+					e.Report(prop+"/settled-counter-missing", "%s: %s settled bits %b, reported bits %b", where, k, l.Counter, r.Counter)
 				}
 			}
 		}
@@ -217,7 +225,7 @@ func (c01) Run(e *Env) {
 					}
 				}
 				nf := ft.NFlushes
-				ft.add(e, "C01", c, func(k SeriesKey) bool { return sentKeys[k] })
+				ft.add(e, prop, c, func(k SeriesKey) bool { return sentKeys[k] })
 				e.Event("call flush=%d obs=%s", nf, CanonObs(c.Obs))
 				if ft.NFlushes != nf {
 					if cfg.Workers > 1 {
@@ -361,7 +369,7 @@ func (c01) Run(e *Env) {
 	}
 	for i := 0; ft.NFlushes < target; i++ {
 		if i > 8 {
-			e.Failf("C01/flush-wedged", "no flush completed within %d intervals after faults stopped (have %d, want %d)", i, ft.NFlushes, target)
+			e.Failf(prop+"/flush-wedged", "no flush completed within %d intervals after faults stopped (have %d, want %d)", i, ft.NFlushes, target)
 		}
 		e.Advance(nextTick())
 		absorb()
@@ -374,37 +382,40 @@ func (c01) Run(e *Env) {
 		m := model[k]
 		r := ft.Reported[k]
 		if r == nil {
-			e.Failf("C01/series-lost", "series %s delivered (%d datapoints) but never reported", k, m.N)
+			e.Failf(prop+"/series-lost", "series %s delivered (%d datapoints) but never reported", k, m.N)
 		}
 		switch m.Kind {
 		case "counter":
 			if r.Counter != m.Counter {
-				e.Failf("C01/counter-sum", "series %s: sum over all flushes %d, expected sum of trunc(v/r) = %d", k, r.Counter, m.Counter)
+				e.Failf(prop+"/counter-sum", "series %s: sum over all flushes %d, expected sum of trunc(v/r) = %d", k, r.Counter, m.Counter)
 			}
 		case "timer":
 			if !floatsEqual(sortedFloats(r.Values), sortedFloats(m.Values)) {
-				e.Failf("C01/timer-multiset", "series %s: reported values %s, received %s", k, fmtFloats(sortedFloats(r.Values)), fmtFloats(sortedFloats(m.Values)))
+				e.Failf(prop+"/timer-multiset", "series %s: reported values %s, received %s", k, fmtFloats(sortedFloats(r.Values)), fmtFloats(sortedFloats(m.Values)))
 			}
 			if !approx(r.Sampled, m.Sampled, 1e-9) {
-				e.Failf("C01/timer-sampled-count", "series %s: sampled counts sum to %v, expected %v", k, r.Sampled, m.Sampled)
+				e.Failf(prop+"/timer-sampled-count", "series %s: sampled counts sum to %v, expected %v", k, r.Sampled, m.Sampled)
 			}
 		case "set":
 			if len(r.Members) != len(m.Members) {
-				e.Failf("C01/set-members", "series %s: reported members %v, received %v", k, keysOf(r.Members), keysOf(m.Members))
+				e.Failf(prop+"/set-members", "series %s: reported members %v, received %v", k, keysOf(r.Members), keysOf(m.Members))
 			}
 			for x := range m.Members {
 				if _, ok := r.Members[x]; !ok {
-					e.Failf("C01/set-members", "series %s: member %q received but never reported", k, x)
+					e.Failf(prop+"/set-members", "series %s: member %q received but never reported", k, x)
 				}
 			}
 		}
 	}
 	for _, k := range sortedKeys(ft.Reported) {
 		if model[k] == nil {
-			e.Failf("C01/never-sent-series", "series %s reported but never sent", k)
+			e.Failf(prop+"/never-sent-series", "series %s reported but never sent", k)
 		}
 	}
 	e.Check()
+	if routing {
+		checkRouting(e, cfg.Workers, ft, model)
+	}
 	e.Note["flushes"] = ft.NFlushes
 	e.Note["datapoints"] = id
 }
